@@ -135,6 +135,7 @@ public:
 			FilterData *fd = new FilterData; fd->tag = tag; fd->mode = path.compare(0,7,"/echomp") == 0 ? 2 : 1;
 			if(request().content_type_parsed().is_multipart_form_data() == false) fd->mode = 1;
 			if(fd->mode == 2 && path.size() > 7 && path[7] >= '1' && path[7] <= '3') fd->behav = path[7] - '0';
+			{ std::string xl = request().getenv("HTTP_X_LIMIT"); if(!xl.empty()){ long long l = atoll(xl.c_str()); request().limits().content_length_limit((size_t)l); request().limits().multipart_form_data_limit(l); } }   // per-request limits, set before the content is read
 			context().reset_specific<FilterData>(fd);
 			if(fd->mode == 1) request().set_content_filter(fd->rf); else request().set_content_filter(fd->mf);
 			{ simk::TsanIgnore ign; AW->filters_installed++; }
@@ -302,14 +303,14 @@ struct E1 : Engine {
 		static const char *methods[] = {"GET","GET","POST","POST","PUT","DELETE","OPTIONS","X-Custom.Method"};
 		std::string m = methods[r.below(8)]; q["method"] = m; q["script"] = async_mount ? "/a" : "/s";
 		bool filt = async_mount && (m == "POST" || m == "PUT") && (prop == "C12" || prop == "C02") && r.below(3) == 0; if(filt) q["script"] = "/f";
-		std::string path = filt && r.below(2) ? "/echomp" : "/echo"; if(path == "/echomp" && r.below(2)) path += (char)('1' + r.below(3));   /* the digit selects what the multipart filter does with the parts (reads them / sniffs them) */ int ns = r.below(4); for(int i=0;i<ns;i++){ path += "/"; unsigned x = r.below(8); if(x == 0) path += ""; else if(x == 1) path += r.below(2) ? "%41b%2Fc" : "%4ab%2fc%e2%82%Ac"; else if(x == 2) path += r.below(3) ? "a%20b" : "a%20sb%25n%25s%20s";   /* what a printf-style formatter must never see as its format */ else if(x == 3) path += "."; else path += rnd_token(r,1,8); }
-		q["path"] = path;
+		std::string path = filt && r.below(2) ? "/echomp" : "/echo"; if(path == "/echomp" && r.below(2)) path += (char)('1' + r.below(3));   /* the digit selects what the multipart filter does with the parts (reads them / sniffs them) */ int ns = r.below(4); for(int i=0;i<ns;i++){ path += "/"; unsigned x = r.below(8); if(x == 0) path += ""; else if(x == 1) path += r.below(2) ? "%41b%2Fc" : "%4ab%2fc%e2%82%Ac"; else if(x == 2) path += r.below(3) ? "a%20b" : "a%20sb%25n%25s%20s";   /* what a printf-style formatter must never see as its format */ else if(x == 3) path += r.below(3) ? "." : "u{8BIT}"; else path += rnd_token(r,1,8); }
+		q["path"] = path; if(filt && r.below(3) == 0) q["xlimit_mode"] = 1 + (int)r.below(4);   /* the filter application sets the limits of this very request: half the body, one byte less, exactly, more than enough */
 		if(r.below(3) == 0){ static const char *hosts[] = {"internal.example","internal.example","internal.example:8080","xinternal.example","internal.example.evil","internal.example:80x","other.example:8080"}; q["host"] = hosts[r.below(7)]; }   // an application is mounted for the host internal.example(:port) only: every request of a kept-alive connection is dispatched by its own Host
 		if(r.below(4) == 0) q["host_last"] = 1;
 		if(r.below(3)){ std::string qs; int n = r.below(5); for(int i=0;i<n;i++){ if(i) qs += "&"; qs += rnd_token(r,1,5) + (r.below(8) ? "=" : "") ; qs += rnd_urlenc(r,10); if(r.below(12)==0) qs += "&" ; } q["query"] = qs; q["has_query"] = true; }
 		J hs = J::arr(); int nh = r.below(7); if(r.below(6) == 0) nh = 20 + r.below(120);   // many headers: the environment table grows through several sizes
 		for(int i=0;i<nh;i++){ J h = J::arr(); static const char *names[] = {"X-Custom","Accept","User-Agent","x-lower-case","X-Mixed-Case-Header","Accept-Language","Referer","X-A"}; std::string nm = names[r.below(8)]; nm += std::to_string(i); h.push(nm);
-			std::string v = rnd_token(r,0,nh > 20 ? 6 : 20); if(r.below(3)==0 && nh <= 20) v += (v.empty() ? "x " : " ") + rnd_token(r,1,6) + "; q=0." + std::to_string(r.below(10)) + ", \"quoted \\\" str\" (comment)"; h.push(v); if(r.below(5) == 0) h.push(1 + (int)r.below(2)); hs.push(h); }   // third element: send the value folded over two or three lines (HTTP)
+			std::string v = rnd_token(r,0,nh > 20 ? 6 : 20); if(r.below(6) == 0) v += "{8BIT}" + rnd_token(r,0,4); if(r.below(3)==0 && nh <= 20) v += (v.empty() ? "x " : " ") + rnd_token(r,1,6) + "; q=0." + std::to_string(r.below(10)) + ", \"quoted \\\" str\" (comment)"; h.push(v); if(r.below(5) == 0) h.push(1 + (int)r.below(2)); hs.push(h); }   // third element: send the value folded over two or three lines (HTTP)
 		// long values (around and above half a string-pool page = 1024 bytes, and above a whole page) get pages of their own in the environment's pool
 		// the front-ends refuse a request head above 16 KiB (http: bytes read until the end of the headers, scgi: header block, which repeats path and query in REQUEST_URI): all long fields of one request share a budget
 		int long_budget = 7000;
@@ -343,7 +344,10 @@ struct E1 : Engine {
 		Req r; r.method = q.gets("method","GET"); if(r.method.empty()) r.method = "GET"; r.script = q.gets("script","/s"); if(r.script != "/a" && r.script != "/f") r.script = "/s"; r.path = q.gets("path","/echo"); if(r.path.empty() || r.path[0] != '/') r.path = "/" + r.path;
 		{ std::string h = q.gets("host"); static const char *known[] = {"sim.example","internal.example","internal.example:8080","xinternal.example","internal.example.evil","internal.example:80x","other.example:8080"}; r.host = "sim.example"; for(auto k:known) if(h == k) r.host = h; r.host_last = q.geti("host_last") != 0; }
 		r.has_query = q.geti("has_query"); r.query = q.gets("query");
-		const J &hs = q.get("headers"); for(size_t i=0;i<hs.size();i++) if(hs.a[i].size() >= 2){ r.headers.push_back({hs.a[i].a[0].s,hs.a[i].a[1].s}); r.fold.push_back(hs.a[i].size() > 2 ? (int)hs.a[i].a[2].as_int() : 0); }
+		// "{8BIT}" in a header value, the path or the query stands for bytes above 0x7f (UTF-8 and ISO-8859-1 text, 0x80, 0xff): legal in field values (obs-text) and seen in request targets
+		auto hi = [](std::string v){ for(size_t p = v.find("{8BIT}");p != std::string::npos;p = v.find("{8BIT}",p)) v.replace(p,6,"caf\xc3\xa9\xe9\x80\xff\xfe"); return v; };
+		r.path = hi(r.path); r.query = hi(r.query);
+		const J &hs = q.get("headers"); for(size_t i=0;i<hs.size();i++) if(hs.a[i].size() >= 2){ r.headers.push_back({hs.a[i].a[0].s,hi(hs.a[i].a[1].s)}); r.fold.push_back(hs.a[i].size() > 2 ? (int)hs.a[i].a[2].as_int() : 0); }
 		const J &cs = q.get("cookies"); for(size_t i=0;i<cs.size();i++) if(cs.a[i].size() >= 2){ r.cookies.push_back({cs.a[i].a[0].s,cs.a[i].a[1].s}); r.cookie_quoted.push_back(cs.a[i].size() > 2 ? (int)cs.a[i].a[2].as_int() : 0); }
 		r.content_type = q.gets("content_type");
 		std::string bk = q.gets("body_kind");
@@ -364,6 +368,7 @@ struct E1 : Engine {
 			r.body = multipart_body(r); }
 		else if(bk == "raw"){ r.has_body = true; r.body = gen_bytes((uint64_t)q.geti("body_seed"),(size_t)std::max<int64_t>(0,std::min<int64_t>(q.geti("body_len"),1<<20)),(int)q.geti("body_fill")); }
 		else r.content_type.clear();
+		if(r.script == "/f" && r.has_body && q.geti("xlimit_mode") > 0){ long long b = (long long)r.body.size(); int m = (int)q.geti("xlimit_mode"); r.xlimit = m == 1 ? b/2 : m == 2 ? std::max<long long>(0,b-1) : m == 3 ? b : 2*b + 10; r.headers.push_back({"X-Limit",std::to_string(r.xlimit)}); r.fold.push_back(0); }
 		return r;
 	}
 
@@ -575,7 +580,7 @@ struct E1 : Engine {
 		int rt = (int)(((cfg.geti("reactor") % 3) + 3) % 3);
 		std::vector<std::unique_ptr<Client>> clients; int n_pipelined = 0;
 		std::string run_exception; int conn_leak = 0; std::string upload_dir;
-		size_t content_limit = (size_t)std::max<int64_t>(1,std::min<int64_t>(plan.get("cfg").geti("content_limit_kb",2048),4096)) * 1024, multipart_limit = (size_t)std::max<int64_t>(1,std::min<int64_t>(plan.get("cfg").geti("multipart_limit_kb",2048),4096)) * 1024;
+		size_t content_limit_cfg = (size_t)std::max<int64_t>(1,std::min<int64_t>(plan.get("cfg").geti("content_limit_kb",2048),4096)) * 1024, multipart_limit_cfg = (size_t)std::max<int64_t>(1,std::min<int64_t>(plan.get("cfg").geti("multipart_limit_kb",2048),4096)) * 1024;
 		{
 			cppcms::json::value v;
 			v["service"]["list"][0]["api"] = "http"; v["service"]["list"][0]["ip"] = "127.0.0.1"; v["service"]["list"][0]["port"] = 8080;
@@ -639,7 +644,7 @@ struct E1 : Engine {
 		AW = nullptr;
 		// ------------------------------------------------------------ oracles
 		std::map<std::string,std::string> cache_pages;
-		int n_raw = 0, n_aborted = 0; int n_disk_refused = 0; int n_on_error = 0; int n_filtered = 0, n_filter_reads = 0, n_host_app = 0; int n_over_limit = 0; int n_gzip_empty = 0; int n_bad = 0, n_bad_refused = 0; int n_cache_hits = 0; int n_ex = 0, n_multi_seg = 0, n_body = 0, n_keepalive_followups = 0, n_writer = 0, n_gzip = 0, n_chunked = 0;
+		int n_raw = 0, n_aborted = 0; int n_disk_refused = 0; int n_on_error = 0; int n_filtered = 0, n_filter_reads = 0, n_host_app = 0, n_xlimit = 0; int n_over_limit = 0; int n_gzip_empty = 0; int n_bad = 0, n_bad_refused = 0; int n_cache_hits = 0; int n_ex = 0, n_multi_seg = 0, n_body = 0, n_keepalive_followups = 0, n_writer = 0, n_gzip = 0, n_chunked = 0;
 		for(auto &cl:clients){ int port = 8080; bool conn_had_error = false; bool aborted_conn = false;
 			for(size_t i=0;i<cl->ex.size() && res.ok;i++){ Exchange &e = cl->ex[i]; n_ex++; if(e.seg.size() > 1) n_multi_seg++; if(e.req.has_body && !e.req.body.empty()) n_body++; if(i > 0 && !e.conn_closed_early) n_keepalive_followups++;
 				std::string who = std::string(cl->proto == 0 ? "http" : cl->proto == 1 ? "scgi" : "fastcgi") + " " + e.req.script + " request " + e.tag;
@@ -668,6 +673,7 @@ struct E1 : Engine {
 					if(e.fo.proto_status != 0 || e.fo.app_status != 0){ res.fail("bad-response-framing",who + ": END_REQUEST status " + std::to_string(e.fo.proto_status) + "/" + std::to_string(e.fo.app_status)); break; } }
 				if(!e.resp.complete){ res.fail("request-not-answered",who + ": connection closed without a complete response, raw: " + esc(e.raw.substr(0,200))); break; }
 				bool raw_filtered = e.req.script == "/f" && !(e.req.path.compare(0,7,"/echomp") == 0 && !e.req.boundary.empty());
+				size_t multipart_limit = e.req.script == "/f" && e.req.xlimit >= 0 ? (size_t)e.req.xlimit : multipart_limit_cfg, content_limit = e.req.script == "/f" && e.req.xlimit >= 0 ? (size_t)e.req.xlimit : content_limit_cfg; if(e.req.script == "/f" && e.req.xlimit >= 0) n_xlimit++;
 				bool over = false; if(!e.is_writer && e.req.has_body){ if(!e.req.boundary.empty()){ over = e.req.body.size() > multipart_limit; if(!raw_filtered) for(auto &pt:e.req.parts) if(pt.ctype.empty() && pt.content.size() > content_limit) over = true; } else over = e.req.body.size() > content_limit; }
 				if(e.resp.complete && e.resp.status >= 400) conn_had_error = true;
 				if(over){ n_over_limit++; int ent0 = aw.entered.count(e.tag) ? aw.entered[e.tag] : 0;
@@ -728,7 +734,7 @@ struct E1 : Engine {
 		if(res.ok) for(auto &kv:aw.on_error){ if(kv.second > 1) res.fail("upload-error-notified-twice","request " + kv.first + ": content filter on_error() called " + std::to_string(kv.second) + " times"); else if(aw.completed.count(kv.first)) res.fail("error-and-completion","request " + kv.first + ": on_error() was called and the handler completed as well"); n_on_error += kv.second; }
 		if(res.ok && leaked) res.fail("descriptor-leak",std::to_string(leaked) + " simulated descriptors still open after the service was destroyed");
 		if(res.ok && !aw.exception.empty()) res.fail("exception-escaped",aw.exception);
-		res.counters["raw_mode_responses"] = n_raw; res.counters["client_aborts_mid_response"] = n_aborted; res.counters["filter_on_error_calls"] = n_on_error; res.counters["content_filter_requests"] = n_filtered; res.counters["filter_reads_parts"] = n_filter_reads; res.counters["host_mounted_app_requests"] = n_host_app; res.counters["accept_emfile"] = (long long)simk::stats().accept_emfile; res.counters["filters_installed"] = aw.filters_installed; res.counters["over_limit_413"] = n_over_limit; res.counters["gzip_announced_empty_body"] = n_gzip_empty; res.counters["malformed_exchanges"] = n_bad; res.counters["malformed_refused_as_required"] = n_bad_refused; res.counters["page_cache_hits"] = n_cache_hits; res.counters["exchanges"] = n_ex; res.counters["multi_segment_requests"] = n_multi_seg; res.counters["requests_with_body"] = n_body; res.counters["keepalive_followups"] = n_keepalive_followups; res.counters["writer_responses"] = n_writer; res.counters["gzip_responses"] = n_gzip; res.counters["chunked_responses"] = n_chunked;
+		res.counters["raw_mode_responses"] = n_raw; res.counters["client_aborts_mid_response"] = n_aborted; res.counters["filter_on_error_calls"] = n_on_error; res.counters["content_filter_requests"] = n_filtered; res.counters["filter_reads_parts"] = n_filter_reads; res.counters["requests_with_own_limits"] = n_xlimit; res.counters["host_mounted_app_requests"] = n_host_app; res.counters["accept_emfile"] = (long long)simk::stats().accept_emfile; res.counters["filters_installed"] = aw.filters_installed; res.counters["over_limit_413"] = n_over_limit; res.counters["gzip_announced_empty_body"] = n_gzip_empty; res.counters["malformed_exchanges"] = n_bad; res.counters["malformed_refused_as_required"] = n_bad_refused; res.counters["page_cache_hits"] = n_cache_hits; res.counters["exchanges"] = n_ex; res.counters["multi_segment_requests"] = n_multi_seg; res.counters["requests_with_body"] = n_body; res.counters["keepalive_followups"] = n_keepalive_followups; res.counters["writer_responses"] = n_writer; res.counters["gzip_responses"] = n_gzip; res.counters["chunked_responses"] = n_chunked;
 		{ long long np = 0, nr = 0; for(auto &cl:clients){ np += cl->n_pauses; nr += cl->n_read_pauses; } res.counters["slow_peer_pauses"] = np; res.counters["slow_reader_pauses"] = nr; }
 		res.counters["pipelined_requests"] = n_pipelined;
 		res.counters["disk_faults_injected"] = (long long)st.stdio_fail; res.counters["upload_spill_stdio_calls"] = (long long)st.stdio_ops; res.counters["uploads_refused_after_disk_fault"] = n_disk_refused;
